@@ -1,12 +1,15 @@
 # C08 has two parts: phantom creation (Props/C08a, group `phantoms`) and worst-case scoring of phantoms in the
-# overstatement assorter (Props/C08b, group `overstatement`).
+# overstatement assorter (Props/C08b, group `overstatement`).  The statement's accounting clause ("the total number of
+# records equals the stratum's card bound ... no more phantoms than the largest shortfall") and its anchors also cover
+# the phantom batch / phantom manual records of the two format modules (Dominion.py, Hart.py): group `manifest`
+# (model Shangrla.Manifest, theorems registered under C17) with its own C08 oracle.
 PROP = dict(
     modules=["Shangrla.Props.C08a", "Shangrla.Props.C08b"],
     theorems=["Shangrla.C08.phantoms_style", "Shangrla.C08.phantoms_nostyle", "Shangrla.C08.phantom_ids_distinct",
               "Shangrla.Phantoms.style_phantoms", "Shangrla.Phantoms.count_closed",
               "Shangrla.C08.phantom_mvr_worst", "Shangrla.C08.phantom_mvr_same_errors", "Shangrla.C08.phantom_cvr_half",
               "Shangrla.C08.phantom_cvr_pooled", "Shangrla.C08.phantom_cvr_pool_mean"],
-    groups={"phantoms": (6000, 40000), "overstatement": (1500, 20000)},
+    groups={"phantoms": (6000, 40000), "overstatement": (1500, 20000), "manifest": (1200, 10000)},
     design_ref="DESIGN.md section 5, C08",
     assumptions=[
         "phantom_mvr_worst: assorter values >= 0, 2 - v/u > 0, u > 0, the CVR's score is a number (not a nan pool mean)",
